@@ -337,6 +337,65 @@ class lb_calculate_visible:
         yield from cv_clauses(ch, s, a, result, ka, kb)
 
 
+# ------------------------------------------------------------------------------------------------ _set_focus_valign_complete
+
+LBV = Obj(
+    _lbmod.ListBox,
+    dict(
+        _body=WALKER,
+        set_focus_pending=Opt(Int),  # whatever was pending (the value is only overwritten here)
+        set_focus_valign_pending=Tup(VALIGN, Int),
+        offset_rows=Int,
+        inset_fraction=Tup(Int, Int),
+        pref_col=Opt(Int),
+    ),
+)
+
+_CTBF = "urwid/widget/filler.py:calculate_top_bottom_filler"
+
+
+@contract(LBX + "ListBox._set_focus_valign_complete", property="C07", replayable=False, inline=(_CTBF,), contract_overrides={_CTBF: None})
+class lb_set_focus_valign_complete:
+    """Completing `set_focus_valign((vt, va))` now that the size is known: both pending requests are cleared, and the
+    focus widget is put `spare` rows below the top for 'bottom', half of that (rounded down) for 'middle', 0 for 'top',
+    va per cent of it (rounded half up from below) for 'relative' -- spare = maxrow - rows, 0 when the widget is taller
+    than the box -- and never on or below the last row: a focus row (if it has one) is inside the box, and shift_focus
+    does not raise (before /repo b1ed84b a 0-row focus widget aligned 'bottom' asked for offset maxrow: ListBoxError).
+    calculate_top_bottom_filler is inlined (its C19 contract bounds the alignment only to within a row)."""
+
+    self_shape = LBV
+    params = dict(size=Tup(Int, Int), focus=Bool)
+    raises = ()
+    modifies = ("set_focus_pending", "set_focus_valign_pending", "offset_rows", "inset_fraction")
+
+    def requires(s, a):
+        vt, va = s.set_focus_valign_pending
+        return both(size_ok(a.size), implies(vt == "relative", both(0 <= va, va <= 100)))
+
+    def ensures(old, s, a, result):
+        maxcol, maxrow = a.size
+        vt, va = old.set_focus_valign_pending
+        g = walker_focus(old, "entry")
+        empty = mk_bool(g[0].isnone)
+        yield "both-pending-requests-cleared", both(s.set_focus_pending is None, s.set_focus_valign_pending is None)
+        yield "empty-list-nothing-else", implies(empty, both(s.offset_rows == old.offset_rows, s.inset_fraction[0] == old.inset_fraction[0], s.inset_fraction[1] == old.inset_fraction[1]))
+        rows = rows_of(val(g[0]), maxcol, a.focus)
+        spare = imax(maxrow - rows, 0)
+        off = s.offset_rows
+        cap = lambda x: imin(x, maxrow - 1)  # noqa: E731
+        yield "no-inset", implies(neg(empty), both(s.inset_fraction[0] == 0, s.inset_fraction[1] == 1))
+        yield "top", implies(both(neg(empty), vt == "top"), off == 0)
+        yield "bottom", implies(both(neg(empty), vt == "bottom"), off == cap(spare))
+        yield "middle", implies(both(neg(empty), vt == "middle"), off == cap(spare // 2))
+        # relative: va per cent of the spare rows go above, to within the rounding of int_scale: |100*top - va*spare| <= 100
+        yield "relative", implies(both(neg(empty), vt == "relative"), either(off == maxrow - 1, both(100 * off - va * spare <= 100, va * spare - 100 * off <= 100)))
+        yield "relative-ends", implies(both(neg(empty), vt == "relative"), both(implies(va == 0, off == 0), implies(va == 100, off == cap(spare))))
+        yield "a-focus-row-inside-the-box", implies(neg(empty), both(0 <= off, off < maxrow))
+        yield "widget-not-cut-while-it-fits", implies(both(neg(empty), rows <= maxrow, rows >= 1), off + rows <= maxrow)
+        yield "scroll-state-sane", implies(neg(empty), lb_ok(s))
+        yield "moves-no-focus", walker_focus(s, "exit")[1] == g[1]
+
+
 @lemma("chain-rows-non-negative", property="C07")
 class chain_rows_nonneg:
     """R(d, k) >= 0 for every k >= 0 with OK(d, k) -- induction on k: R(d, 0) = 0; OK(d, k+1) implies OK(d, k) and
